@@ -1,7 +1,7 @@
 (** * C06 — Queued jobs of a pipeline start in the order they were accepted *)
 From stdpp Require Import list sorting.
 From Coq Require Import ZArith.
-From PV Require Import Runner proofs.SystemProps.
+From PV Require Import System Runner proofs.SystemProps proofs.TimerProps.
 
 (** Job ids are acceptance order. Every wait list is strictly increasing: append adds the newest job at the end,
     replace overwrites the last entry with a newer one, cancels and failures remove entries — nothing reorders. *)
@@ -22,6 +22,14 @@ Theorem C06_fifo_dequeue : ∀ s p id id',
   id' ∉ wl_get (st_wait (dequeue s p)) p.
 Proof. exact sys_dequeue_fifo. Qed.
 
+(** The only other way to start is at acceptance. Under an unchanged definition a request is started at once only when
+    nobody is waiting in its pipeline: a waiting head without timer means every slot is taken (work conservation), a waiting
+    head with a pending timer means the pipeline has a start delay, and then the new request waits as well *)
+Theorem C06_immediate_start_only_when_nobody_waits : ∀ ds evs p,
+  Forall no_reload evs → let s := exec (init ds) evs in
+  st_shut s = false → resolve_action s p false = AStart → wl_get (st_wait s) p = [].
+Proof. exact immediate_start_only_when_nobody_waits. Qed.
+
 Definition ex_defs : defs := [(0%nat, PDef 1 None false 0 false 0 0 0 [])].
 Example C06_ex :
   let s := exec (init ex_defs) [EvSchedule 0 VNone 0; EvSchedule 0 VNone 0; EvSchedule 0 VNone 0; EvSchedule 0 VNone 0; EvCancel 2] in
@@ -33,3 +41,4 @@ Proof. vm_compute. done. Qed.
 Print Assumptions C06_waitlist_in_acceptance_order.
 Print Assumptions C06_waitlist_is_waiting_jobs.
 Print Assumptions C06_fifo_dequeue.
+Print Assumptions C06_immediate_start_only_when_nobody_waits.
